@@ -9,7 +9,7 @@ EXTENDS VStoresHist, Json
 CONSTANTS Emit, HistLen, MaxList, Wide
 VARIABLES phys, hist, answers
 
-Dirs == {p \in [PhysRefs -> PhysConts] : /\ p["ca:n1"] \in {"missing", "empty", "leafOnly", "linkRoot", "rootAndEmptyFile", "unrelated", "root"} /\ p["sa:n1"] \in {"missing", "empty", "leafOnly", "linkRoot", "rootAndEmptyFile", "unrelated", "root"}
+Dirs == {p \in [PhysRefs -> PhysConts] : /\ p["ca:n1"] \in {"missing", "empty", "leafOnly", "linkRoot", "linkFileRoot", "rootAndEmptyFile", "unrelated", "root"} /\ p["sa:n1"] \in {"missing", "empty", "leafOnly", "linkRoot", "linkFileRoot", "rootAndEmptyFile", "unrelated", "root"}
                                         /\ p["ca:n2"] \in {"unrelated", "root"} /\ p["sa:n2"] \in {"unrelated", "root"}
                                         /\ p["tsa:n1"] \in {"root", "tsaRoot"}
                                         /\ (~Wide => p["ca:n2"] = "unrelated" /\ p["sa:n2"] = "root" /\ p["tsa:n1"] = "root")}
